@@ -189,6 +189,14 @@ impl ToTokens for Expansion<'_> {
 
         let field_ref = quote! { & #mut_ self.#field_ident };
 
+        // `&` binds tighter than `+`, so a trait object with several bounds has to be parenthesized
+        // before a reference to it can be spelled.
+        let referent = |ty: &syn::Type| match ty {
+            syn::Type::TraitObject(obj) if obj.bounds.len() > 1 => quote! { (#ty) },
+            _ => quote! { #ty },
+        };
+        let field_referent = referent(field_ty);
+
         let generics_search = GenericsSearch {
             types: self.generics.type_params().map(|p| &p.ident).collect(),
             lifetimes: self
@@ -242,6 +250,7 @@ impl ToTokens for Expansion<'_> {
             let trait_ty = quote! {
                 derive_more::core::convert::#trait_ident <#return_ty>
             };
+            let return_referent = referent(&return_ty);
 
             let generics = match &impl_kind {
                 ImplKind::Forwarded => {
@@ -273,7 +282,7 @@ impl ToTokens for Expansion<'_> {
                     use derive_more::__private::ExtractRef as _;
 
                     let conv =
-                        <derive_more::__private::Conv<& #mut_ #field_ty, #return_ty>
+                        <derive_more::__private::Conv<& #mut_ #field_referent, #return_ty>
                          as derive_more::core::default::Default>::default();
                     (&&conv).__extract_ref(#field_ref)
                 }),
@@ -285,7 +294,7 @@ impl ToTokens for Expansion<'_> {
                 #[automatically_derived]
                 impl #impl_gens #trait_ty for #ty_ident #ty_gens #where_clause {
                     #[inline]
-                    fn #method_ident(& #mut_ self) -> & #mut_ #return_ty {
+                    fn #method_ident(& #mut_ self) -> & #mut_ #return_referent {
                         #body
                     }
                 }
